@@ -27,10 +27,12 @@ RECURSIVE DoReads(_, _, _)
 \* returns [r, rets]
 DoReads(r, reads, acc) == IF reads = <<>> THEN [r |-> r, rets |-> acc]
                           ELSE LET x == RD!RApply(r, Head(reads)) IN DoReads(x.r, Tail(reads), Append(acc, x.ret))
+\* there may be MORE plans than chunks: a reader that asks for chunks that were never written finds them empty
+ChunkAt(chunks, i) == IF i <= Len(chunks) THEN chunks[i] ELSE <<>>
 RECURSIVE ReadChunks(_, _, _, _, _)
 ReadChunks(r, chunks, plans, i, acc) ==
-  IF i > Len(chunks) THEN acc
-  ELSE LET x == DoReads(r, PlanReads(chunks[i], plans[i]), <<>>)
+  IF i > Len(plans) THEN acc
+  ELSE LET x == DoReads(r, PlanReads(ChunkAt(chunks, i), plans[i]), <<>>)
            n == RD!RApply(x.r, [op |-> "next_chunk"])
        IN  ReadChunks(n.r, chunks, plans, i + 1, Append(acc, x.rets))
 ChunkedReader(bytes) == [RD!NewReader(bytes) EXCEPT !.chunked = TRUE]
@@ -47,5 +49,5 @@ PrefixCorrect(chunk, plan, rets) ==
   \A j \in 1..plan.k : Lossy(chunk[j], TRUE) \/ rets[j] = Expected(chunk[j], TRUE)
 SurplusZero(chunk, plan, rets) ==
   plan.k = Len(chunk) => \A j \in 1..Len(plan.extra) : rets[plan.k + j] = ZeroValue(plan.extra[j])
-NonInterference(chunks, plans, results) == \A c \in 1..Len(chunks) : results[c] = Alone(chunks[c], plans[c])
+NonInterference(chunks, plans, results) == \A c \in 1..Len(plans) : results[c] = Alone(ChunkAt(chunks, c), plans[c])
 =============================================================================
